@@ -24,10 +24,21 @@ type c05 struct{}
 
 func init() { register("C05", c05{}) }
 
-const (
-	c05Deadline  = 4 * time.Second
-	c05HeapLimit = 512 << 20
-)
+const c05HeapLimit = 512 << 20
+
+// c05Deadline is the per-call deadline of the worker: 4 s, or C05_DEADLINE_S seconds (the parent
+// re-runs a call that timed out once with a 30 s deadline before it reports a hang, so that a
+// stalled machine does not look like a non-terminating decoder).
+var c05Deadline = func() time.Duration {
+	if v := os.Getenv("C05_DEADLINE_S"); v != "" {
+		var n int
+		fmt.Sscanf(v, "%d", &n)
+		if n > 0 {
+			return time.Duration(n) * time.Second
+		}
+	}
+	return 4 * time.Second
+}()
 
 // ---------------------------------------------------------------- worker (child)
 
@@ -213,6 +224,20 @@ func c05Call(e Ev) Ev {
 func (c05) Exec(h []Ev) []Ev {
 	for _, e := range h {
 		r := c05Call(e)
+		if GS(r["outcome"]) == "hang" {
+			// confirm with a generous deadline in a fresh worker
+			os.Setenv("C05_DEADLINE_S", "30")
+			c05Deadline = 30 * time.Second
+			r = c05Call(e)
+			if c05c != nil {
+				c05c.in.Flush()
+				c05c.cmd.Process.Kill()
+				c05c.cmd.Wait()
+				c05c = nil
+			}
+			os.Unsetenv("C05_DEADLINE_S")
+			c05Deadline = 4 * time.Second
+		}
 		for k, v := range r {
 			e[k] = v
 		}
